@@ -124,7 +124,37 @@ def check_wsgi(P, R):
         okr = all(enclosing(r, ast.If) is not None and 'catchall' in src(enclosing(r, ast.If).test) for r in rer)
         R.ob('C03.c', f, h, okr, text='catch-all re-raises only when catchall is off', detail='' if okr else 'catch-all re-raises unconditionally', nontrivial=False)
     # ---- f: suppression
-    sup_any = [n for n in g.nodes if n.ast is not None and n.kind in ('test', 'stmt') and '_status_code' in src(n.ast) and ' in ' in src(n.ast)]
+    # which attributes of the response read the numeric status code, which the status line (text): the slots themselves and the plain properties over them
+    kinds = {'_status_code': 'code', '_status_line': 'line'}
+    rcls_ = P.cls('ombott.response:BaseResponse')
+    for pn_, pm_ in rcls_.methods.items():
+        if any(dotted(d_) == 'property' for d_ in pm_.node.decorator_list):
+            vals_ = {dotted(T.expand(pm_, v_, at_)) for (v_, at_, _r) in T.result_values(pm_) if v_ is not None}
+            if vals_ == {'self._status_code'}:
+                kinds[pn_] = 'code'
+            elif vals_ == {'self._status_line'}:
+                kinds[pn_] = 'line'
+
+    def status_reads(e, kind):
+        return [x for x in ast.walk(e) if isinstance(x, ast.Attribute) and kinds.get(x.attr) == kind]
+    # a status *line* looked up in a set of numbers is never found
+    for n in g.nodes:
+        if n.ast is None or n.kind not in ('test', 'stmt'):
+            continue
+        for x in ast.walk(n.ast):
+            cp_ = compare_parts(x) if isinstance(x, ast.Compare) else None
+            if cp_ and cp_[1] in (ast.In, ast.NotIn, ast.Eq, ast.NotEq) and isinstance(cp_[0], ast.Attribute) and kinds.get(cp_[0].attr) == 'line':
+                try:
+                    cv_ = T.ceval(f, cp_[2])
+                except T.CannotEval:
+                    continue
+                nums = [v for v in (cv_ if isinstance(cv_, (set, frozenset, tuple, list)) else [cv_]) if isinstance(v, int)]
+                if nums:
+                    R.ob('C03.f', f, x, False, text=f'`{short(x)}` compares the numeric status', detail=
+                         f'`{short(cp_[0])}` is the status line (text such as "204 No Content"), compared here with the numbers {sorted(nums)[:4]}: the comparison is never true, so '
+                         f'1xx / 204 / 304 responses keep the body the handler returned (and the iterable is not closed on that branch)',
+                         why='1xx, 204 and 304 responses carry no body', key_extra='status-type')
+    sup_any = [n for n in g.nodes if n.ast is not None and n.kind in ('test', 'stmt') and status_reads(n.ast, 'code') and ' in ' in src(n.ast)]
     R.require(sup_any, 'wsgi: no body-suppression decision')
     casts = [g.node_of_stmt(c)[0] for c in walk_shallow(f.node) if isinstance(c, ast.Call) and dotted(c.func) == 'self._cast']
     R.require(casts, 'wsgi: _cast call not found')
@@ -146,14 +176,14 @@ def check_wsgi(P, R):
             if ds_ and all(d_.kind == 'assign' and d_.value is not None for d_ in ds_):
                 alts = [x_ for d_ in ds_ for x_ in bool_operands(T.expand(f, d_.value, d_.node), ast.Or)]
         txt = ' '.join(src(a_) for a_ in alts)
-        if 'HEAD' in txt and '_status_code' in txt:
+        if 'HEAD' in txt and any(status_reads(a_, 'code') for a_ in alts):
             sup.append((n, alts))
     R.require(sup, 'wsgi: no body-suppression test')
     sn, parts = sup[0]
     codes = None
     for p in parts:
         cp = compare_parts(p)
-        if cp and cp[1] is ast.In and '_status_code' in src(cp[0]):
+        if cp and cp[1] is ast.In and status_reads(cp[0], 'code'):
             try:
                 codes = set(T.ceval(f, cp[2]))
             except T.CannotEval:
@@ -360,6 +390,16 @@ def check_cast(P, R):
                 det = '' if ok else (f'Content-Length is len({x}) but what is returned is `{short(rv)}`: if {x} is text, its length in '
                                      f'characters differs from the number of bytes sent (non-ASCII bodies)')
         R.ob('C03.e', f, c, ok, detail=det, why='a Content-Length set by the framework equals the number of bytes returned')
+    # ... and nothing else in _cast announces a length: a number that is not the length of the very bytes returned (the size of a file the handler may have
+    # read from already, a pipe's 0, a character count) disagrees with what is sent
+    for st_ in walk_shallow(f.node):
+        tg_ = [t for t in (st_.targets if isinstance(st_, ast.Assign) else []) if isinstance(t, ast.Subscript) and is_const(t.slice, 'Content-Length')]
+        tg_ += [t for t in (st_.targets if isinstance(st_, ast.Assign) else []) if isinstance(t, ast.Attribute) and t.attr == 'content_length']
+        if tg_:
+            R.ob('C03.e', f, st_, False, text=f'`{short(st_)}`: a length announced by _cast that is not len() of the bytes it returns', detail=
+                 f'`{short(st_)}` sets Content-Length from `{short(st_.value)}`, not from the bytes handed to the server: for a file-like result the size of the file ignores '
+                 f'the position the handler left it at (100 bytes sent, 104 announced), a pipe or socket reports 0',
+                 why='a Content-Length set by the framework equals the number of bytes returned', key_extra='other-length')
     # ---- c (part): every step that runs handler code while peeking (iter(out), next(iout)) sits in the try that turns failures into responses
     from .c17 import _caught
     peeks = [c for c in walk_shallow(f.node) if isinstance(c, ast.Call) and dotted(c.func) in ('iter', 'next') and c.args]
@@ -577,7 +617,33 @@ def check_emit_snapshot(P, R, rid, why):
         elif isinstance(x, ast.For):
             its.append((x, x.iter))
     its = [(n_, T.expand(em, it_, em.cfg.node_of_stmt(n_)[0])) for (n_, it_) in its]
-    its = [(n_, it_) for (n_, it_) in its if '_hooks' in src(it_)]
+    # the iterated object may be a local with several origins: a snapshot made now, or one remembered from an earlier emit
+    more = []
+    for (n_, it_) in list(its):
+        if isinstance(it_, ast.Name) and em.rd.is_local(it_.id):
+            ds_ = em.rd.at(em.cfg.node_of_stmt(n_)[0] if not isinstance(n_, ast.For) else em.cfg.nodes_for(n_)[0], it_.id)
+            vals_ = [(d_, T.expand(em, d_.value, d_.node)) for d_ in ds_ if d_.value is not None]
+            memo_reads = [(d_, v_) for (d_, v_) in vals_ if '_hooks' not in src(v_) and any(isinstance(x, ast.Attribute) and (dotted(x) or '').startswith('self.') for x in ast.walk(v_))]
+            for (d_, v_) in memo_reads:
+                attr_ = [dotted(x) for x in ast.walk(v_) if isinstance(x, ast.Attribute) and (dotted(x) or '').startswith('self.') and isinstance(x.value, ast.Name)][0]
+                # every method that edits the hook lists must drop the remembered sequence
+                ocls_ = em.owner_cls
+                leaks = []
+                for mname_, m_ in (ocls_.methods.items() if ocls_ is not None else []):
+                    edits = [c for c in walk_shallow(m_.node) if isinstance(c, ast.Call) and call_attr(c) in ('append', 'insert', 'remove', 'pop', 'clear', 'extend', 'sort', 'reverse')
+                             and '_hooks' in src(c.func.value) and 'self' in src(c.func.value)]
+                    drops = [c for c in walk_shallow(m_.node) if (isinstance(c, ast.Call) and call_attr(c) in ('pop', 'clear') and dotted(c.func.value) == attr_)
+                             or (isinstance(c, ast.Delete) and any(attr_ in src(t_) for t_ in c.targets))]
+                    if edits and not drops and m_ is not em:
+                        leaks.append(mname_)
+                R.ob(rid, em, d_.stmt, not leaks, text=f'hooks remembered in `{attr_}` are dropped by every method that edits the hook lists', detail='' if not leaks else
+                     f'emit runs the hooks it remembered in `{attr_}` at an earlier emit, and {", ".join(leaks)}() edits the hook list without dropping that memory: a hook removed '
+                     f'after the first request still runs on every later one (and the hooks that run are no longer the registered ones in their order)',
+                     why=why, key_extra='emit-memo')
+            for (d_, v_) in vals_:
+                if '_hooks' in src(v_):
+                    more.append((n_, v_))
+    its = [(n_, it_) for (n_, it_) in its + more if '_hooks' in src(it_)]
     R.require(its, 'Ombott.emit: iteration over the hook list not found')
     for (n_, it_) in its:
         snap = (isinstance(it_, ast.Subscript) and isinstance(it_.slice, ast.Slice) and it_.slice.lower is None and it_.slice.upper is None and it_.slice.step is None) or \
